@@ -661,14 +661,33 @@ fn handle(natives: &[(&'static str, NativeFn)], session: &mut Option<Session>, p
             let sess = session.as_mut().ok_or("no session")?;
             let c = unhex(words.get(1).ok_or("missing command")?).ok_or("bad hex")?;
             let at_step: usize = words.get(2).copied().unwrap_or("0").parse().map_err(|_| "bad step")?;
+            let count: usize = words.get(3).copied().unwrap_or("1").parse().map_err(|_| "bad count")?;
             if sess.umbilical_high.is_some() {
-                // command <hex> <k>: available to the evaluator from the k-th loop head after this request on
-                verif::script_command(verif::steps() + at_step, c);
+                // command <hex> <k> [count]: available to the evaluator from the k-th loop head after this request on (count copies)
+                for _ in 0 .. count {
+                    verif::script_command(verif::steps() + at_step, c.clone());
+                }
                 Ok("ok".to_string())
             }
             else {
                 Err("no umbilical".to_string())
             }
+        },
+        "commandrand" => {
+            // commandrand <seed> <k> <count>: a pseudo-random sequence of STEP-IN / STEP-OVER answers
+            let sess = session.as_mut().ok_or("no session")?;
+            let mut state: u64 = words.get(1).ok_or("missing seed")?.parse().map_err(|_| "bad seed")?;
+            let at_step: usize = words.get(2).copied().unwrap_or("0").parse().map_err(|_| "bad step")?;
+            let count: usize = words.get(3).copied().unwrap_or("1").parse().map_err(|_| "bad count")?;
+            if sess.umbilical_high.is_none() {
+                return Err("no umbilical".to_string());
+            }
+            for _ in 0 .. count {
+                state = state.wrapping_mul(6364136223846793005).wrapping_add(1442695040888963407);
+                let c = if (state >> 33) & 1 == 1 { "STEP-IN" } else { "STEP-OVER" };
+                verif::script_command(verif::steps() + at_step, c.to_string());
+            }
+            Ok("ok".to_string())
         },
         "audit" => {
             // handle audit at a quiescent point: after a forced collection every handle belongs to a definition or a driver slot
